@@ -3,7 +3,7 @@ import os, re
 from vlib import common as C
 from vlib.common import Query
 H = os.path.join(C.VERIF, 'harness', 'C10')
-ROOTS = ['d_cast', 'd_cyclic']
+ROOTS = ['d_cast', 'd_cast_empty', 'd_cyclic']
 
 
 def relift(ctx):
@@ -15,18 +15,27 @@ def run(ctx):
     L = relift(ctx)
     known = dict(C.load_known('C10'))
     hs = os.path.join(H, 'h_cast.c')
-    NM = 4 if thorough else 3
-    qs = [Query('cast-rule', L, hs, ['NMAX=%d' % NM], unwind=NM + 3, timeout=1800 if thorough else 400, backend='cadical',
-                desc='canBeCastedTo on flattened vectors of lengths 0..%d over 3 leaf dtypes: reference rule, symmetry, no crash' % NM),
-          Query('cast-rule-nonempty', L, hs, ['NMAX=%d' % NM, 'NONEMPTY'], unwind=NM + 3, timeout=1800 if thorough else 400, backend='cadical',
-                desc='the same with both flattened vectors non-empty')]
+    NM = 6 if thorough else 4
+    # loops over the 8 selector slots (harness main, wrapper fill) need 9; the loops of the code under test are bounded by the
+    # flattened lengths
+    US = ['main.%d:9' % k for k in range(4)] + ['%s.%d:9' % (f, k) for f in ('d_cast', 'd_cast_empty', 'd_cyclic', 'fill', 'zero') for k in range(8)]
+    qs = []
+    for nf in range(1, NM + 1):
+        for nt in range(1, NM + 1):
+            qs.append(Query('cast-rule-%dx%d' % (nf, nt), L, hs, ['NMAX=%d' % NM, 'NF=%d' % nf, 'NT=%d' % nt], unwind=NM + 2, unwindset=US, timeout=1800 if thorough else 300, backend='cadical',
+                            desc='canBeCastedTo on flattened vectors of lengths %d and %d, every choice of leaf dtypes: reference rule, symmetry, no crash' % (nf, nt)))
+    if 'empty-dtype' in known:
+        qs.append(Query('empty/known', L, hs, ['NMAX=%d' % NM, 'EMPTY'], unwind=NM + 2, unwindset=US, timeout=400, backend='cadical', expect='fail', known='key=empty-dtype ' + known['empty-dtype'], desc='re-confirm listed finding'))
+    else:
+        qs.append(Query('empty', L, hs, ['NMAX=%d' % NM, 'EMPTY'], unwind=NM + 2, unwindset=US, timeout=1800 if thorough else 400, backend='cadical',
+                        desc='an empty struct dtype against flattened vectors of lengths 1..%d, both directions: not castable, no crash' % NM))
     for q in qs:
         q.no_ptr_overflow = True
     if ctx.only:
         qs = [q for q in qs if re.search(ctx.only, q.name)]
-    C.selftest(ctx, L, hs, ['NMAX=%d' % NM, 'NONEMPTY'], [dict(nf=1, nt=2, f=[0, 0, 0, 0], t=[0, 0, 0, 0]), dict(nf=2, nt=4, f=[0, 1, 0, 0], t=[0, 1, 0, 2]), dict(nf=3, nt=3, f=[0, 1, 2, 0], t=[0, 1, 2, 0])], 'cast')
+    C.selftest(ctx, L, hs, ['NMAX=%d' % NM], [dict(nf=1, nt=2, f=[0] * 8, t=[0] * 8), dict(nf=2, nt=3, f=[0, 1, 0, 0, 0, 0, 0, 0], t=[0, 1, 0, 2, 0, 0, 0, 0]), dict(nf=3, nt=3, f=[0, 1, 2, 0, 0, 0, 0, 0], t=[0, 1, 2, 0, 0, 0, 0, 0])], 'cast')
     C.run_queries(ctx, qs)
-    ctx.bounds = {'flattened dtypes': 'every pair of flattened dtype vectors of lengths 0..%d over three distinct leaf dtypes' % NM,
+    ctx.bounds = {'flattened dtypes': 'every pair of flattened dtype vectors of lengths 1..%d over three distinct leaf dtypes, and an empty struct dtype against each' % NM,
                   'outside': 'extraction of argument metadata by the parser and the fresh-vs-cached clause (parser + build.json I/O); modeKernel_t::setupRun itself (needs a kernel object with occa::json properties); flattening of struct/tuple/union trees (setFlattenedDtype recursion over heap objects); the byte wildcard (identity of the global occa::dtype::byte)'}
     ctx.assumptions += ['private members of dtype_t are opened in the wrapper TU to set flatDtype directly', 'operator new never fails']
     return C.finish(ctx)
